@@ -444,6 +444,9 @@ func boundsMap(b Bounds, sticky bool) map[string]interface{} {
 
 // Run performs the whole check for one property and returns the exit code.
 func Run(property string) int {
+	if spec := os.Getenv("VERIF_BAL_DEBUG"); spec != "" {
+		return debugCase(spec)
+	}
 	c := ev.NewCheck(property, "model_checking")
 	cfg := DefaultConfig(property)
 	s := &Search{cfg: cfg, c: c, start: time.Now(), visited: map[[16]byte]uint8{}, byClass: map[string]int{}, outHist: map[string]int{},
